@@ -7,6 +7,7 @@ governance-check program, closures and `decrementAllowance`):
 * `disp <kind> <method> <methodIdHex> <writer> <addr> <entries|->` → ran | blocked:readonly | blocked:disabled   (stateless)
 * `set shares <a> <n>` | `set allow <a> <b> <n>` | `set bal <a> <n>` | `set pool <id> <sender> <amount>` → ok
 * `h <kind> <caller> <origin> <addr> <methodIdHex> <entries|-> <method> <args…>` → `<status> <observed values>`   (stateful history)
+* `hu …` (same arguments): the call is made in a frame that reverts afterwards and is caught → `undone <observed values>`, state unchanged
 * `tkset <token> <acct> <token balance> <ERC-20 allowance to the precompile> <coins>` → ok;  `tk <token> <fx|erc20|coin> <caller> <amount>` →
   `<ok|err> t=<token balance of the caller> a=<its allowance to the precompile>`: the regenerated ERC-20 leg (`Gen.C10Tok.erc20Leg`)
   interpreted on the token world of that token (accounts: 7 = precompile, 8 = erc20 module, 9 = the token contract's own account)
@@ -178,6 +179,18 @@ def step (st : World) (line : String) : World × String :=
         | _ => (st, if r.executed then "ran" else "not-run")
       | none => (st, "no-readonly-fact")
     | none => (st, "bad-op")
+  | "hu" :: kind :: caller :: origin :: addr :: mid :: ents :: m :: args =>
+    -- the same call made in a frame that REVERTs afterwards (caught): it ran, and nothing of it remains
+    match kindOf kind, nats [caller, origin], hcallOf m args with
+    | some k, some [c, o], some call =>
+      match readonlyFlag k with
+      | some ro =>
+        let r := runGen (entriesOf ents) ro addr.toList mid.toList ⟨c, o, selfOf addr, hvalueOf m args⟩ call st
+        match r.out with
+        | .ok _ => (st, "undone " ++ observe c (selfOf addr) call st)
+        | .error _ => (st, statusOf call r ++ " " ++ observe c (selfOf addr) call st)
+      | none => (st, "no-readonly-fact")
+    | _, _, _ => (st, "bad-op")
   | "h" :: kind :: caller :: origin :: addr :: mid :: ents :: m :: args =>
     match kindOf kind, nats [caller, origin], hcallOf m args with
     | some k, some [c, o], some call =>
